@@ -371,7 +371,7 @@ func (r *runner) setup() {
 	table.Configure()
 	fw.Configure()
 	table.CreateFIBTable(c.Fib)
-	for id := uint64(0); id < 1200; id++ { // every face id a scenario can have used (only the exported API, so that the table's representation can change)
+	for id := uint64(0); id < 1400; id++ { // every face id a scenario can have used (only the exported API, so that the table's representation can change)
 		dispatch.RemoveFace(id)
 	}
 
@@ -553,7 +553,20 @@ func tokenBytes(hx string) []byte {
 	return b
 }
 
-func nonceVal(k int) uint32 { return 0x5eed0000 + uint32(k) }
+// nonceVal: the k-th nonce of a run; a few of them are the boundary values of the 4-byte field.
+func nonceVal(k int) uint32 {
+	switch k {
+	case 2:
+		return 0
+	case 3:
+		return 0xffffffff
+	case 5:
+		return 0x80000000
+	case 7:
+		return 1
+	}
+	return 0x5eed0000 + uint32(k)
+}
 
 func (r *runner) buildInterest(op *Op) *defn.Pkt {
 	cfg := &ndn.InterestConfig{CanBePrefix: op.CBP, MustBeFresh: op.MBF}
